@@ -14,6 +14,10 @@ def run(res, tier, seed):
     engine.corpus(res, "C13")
     n = 150 if tier == "quick" else 1500
     engine.run_ops(res, "C13", OPS, seed, n, 130 if tier == "quick" else 300)
+    # "affect exactly the addressed entries": on a window the entries of the parent around the view are not addressed
+    # (the raw parent is dumped and compared); random and all-ones surroundings
+    for k, fill in enumerate(("rand", "ones")):
+        engine.run_ops(res, "C13", OPS, seed + 11 + k, n // 3, 130, W=(lambda f: (lambda role: {"fill": f}))(fill), tag="/win-" + fill)
 
 
 def replay(res, path):
